@@ -1,9 +1,24 @@
 """C09 - OverlayFS shows the upper-shadows-lower union as an ordinary tree."""
 from props import hist, histprop, c03
 
+
+
+def known(d):
+    """D28: a name ending in the marker suffix - the marker file of /a and the marker directory of /a_wo/* coincide;
+    matched by the directed case family and the contract oracle's verdict, so that a model/implementation deviation
+    on the same cases is still reported"""
+    if "_wocollide_" in d.get("case", "") and d.get("spec"):
+        return "D28"
+    return c03.known(d)
+
+
+def corpus_cases():
+    return hist.marker_collision_cases("c09")
+
+
 CONFIGS = ["ovl_m", "ovl_mm", "ovl_mmm", "ovl_pp", "ovl_mp", "ovl_sub", "alt_ovl", "ovl_alt", "ovl_ovl"]
 P = histprop.HistProp(
-    "C09", CONFIGS, typed=True, quick_cases=12, thorough_cases=150, nops=(10, 22), known=c03.known, use_spec=True,
+    "C09", CONFIGS, typed=True, quick_cases=12, thorough_cases=150, nops=(10, 22), known=known, use_spec=True, corpus_cases=corpus_cases,
     prepop_density=0.8, with_times=False,
     rule=("typed histories through overlays of 1-3 memory/physical/mixed layers, layers that are sub-directories of one "
           "filesystem, altroot over overlay, overlay over altroots, nested overlays, with densely pre-populated layers (the "
